@@ -87,7 +87,9 @@ func runC19(r *vh.Run) {
 			limited: {{Days: proto.Int32(1), Megabytes: proto.Int32(1)}},
 			other:   {{Days: proto.Int32(1), Megabytes: proto.Int32(1)}, {Days: proto.Int32(30), Megabytes: proto.Int32(100)}},
 		}
-		rg, err := rig.Start(rig.Opts{Transport: tr, MTU: 1400, Users: users, Quotas: quotas, ClientUser: limited, ClientPass: "p1"})
+		// Multiplex > 0: later sessions are multiplexed on existing underlays (on TCP only the first segment of a
+		// connection carries the authentication; the quota must still bind sessions opened later on it)
+		rg, err := rig.Start(rig.Opts{Transport: tr, MTU: 1400, Users: users, Quotas: quotas, ClientUser: limited, ClientPass: "p1", Multiplex: 6})
 		if err != nil {
 			r.Fail("c19-start", err.Error(), nil)
 			continue
@@ -129,6 +131,19 @@ func runC19(r *vh.Run) {
 		step(limited, rg.Client, 600000, 650000, false, "crossing") // total now ~2.15 MB > 2 MiB => 2 > 1
 		step(limited, rg.Client, 1000, 1000, true, "above")
 		step(limited, rg.Client, 10, 10, true, "above-again")
+		// keep opening sessions until some were multiplexed on an already established underlay
+		reused := 0
+		for i := 0; i < 10 && reused < 3; i++ {
+			before := countDials(rg)
+			step(limited, rg.Client, 20+i, 20, true, "above-multiplexed")
+			if countDials(rg) == before {
+				reused++
+			}
+		}
+		r.Count(fmt.Sprintf("above-quota-sessions-on-existing-underlay-%s", tr))
+		if reused == 0 {
+			r.Rep.Notes = map[string]string{"multiplex-" + tr: "no over-quota session was multiplexed on an existing underlay in this run"}
+		}
 		step(free, cFree, 2500000, 100, false, "noquota-large")
 		step(other, cOther, 100000, 100000, false, "other-within")
 		// accounting: counters equal what the server application really moved
@@ -155,3 +170,21 @@ func runC19(r *vh.Run) {
 }
 
 func strings3(u string) string { return u[:3] }
+
+// countDials counts underlays created so far (TCP dials / distinct UDP client sockets).
+func countDials(rg *rig.Rig) int {
+	n := 0
+	socks := map[string]bool{}
+	for _, e := range rg.Net.Log.Snapshot() {
+		switch e.Kind {
+		case "tcp-dial":
+			n++
+		case "udp-send":
+			if !socks[e.Src] {
+				socks[e.Src] = true
+				n++
+			}
+		}
+	}
+	return n
+}
